@@ -156,19 +156,38 @@ func checkItemAgainst(v e5.Value, it secs2.Item) error {
 		return fmt.Errorf("valid constructor arguments produced an errored item: %v", err)
 	}
 	want := e5.Encode(v)
-	got := it.ToBytes()
+	first := it.ToBytes()
+	got := bytes.Clone(first)
 	if err := sameEncoding(v, got, want); err != nil {
 		return err
 	}
 	if it.EncodedLen() != len(got) {
 		return fmt.Errorf("EncodedLen()=%d but ToBytes() has %d bytes", it.EncodedLen(), len(got))
 	}
-	// determinism
-	if again := it.ToBytes(); !bytes.Equal(again, got) {
-		return fmt.Errorf("ToBytes not deterministic (first diff at %d)", firstDiff(again, got))
+	// determinism - the buffers handed out are the caller's: what the caller does to them afterwards
+	// (a reused scratch buffer) must not change what the item encodes to
+	scribbleBytes(first)
+	again := it.ToBytes()
+	if !bytes.Equal(again, got) {
+		return fmt.Errorf("ToBytes not deterministic: after the caller overwrote the buffer the first ToBytes() returned, the item encodes differently (first diff at %d)", firstDiff(again, got))
 	}
-	if app := it.AppendTo(nil); !bytes.Equal(app, got) {
+	scribbleBytes(again)
+	app := it.AppendTo(nil)
+	if !bytes.Equal(app, got) {
 		return fmt.Errorf("AppendTo(nil) != ToBytes() (first diff at %d)", firstDiff(app, got))
+	}
+	scribbleBytes(app)
+	if v.FC != e5.Empty {
+		// ... nor what a parent embedding the item encodes to
+		parent := secs2.NewListItem(it)
+		pb := parent.ToBytes()
+		if wantP := append([]byte{0x01, 0x01}, got...); !bytes.Equal(pb, wantP) { // a list of one child: header 01 01, then the child's encoding
+			return fmt.Errorf("a list embedding the item encodes wrongly after the caller overwrote buffers earlier encodings returned (first diff at %d)", firstDiff(pb, wantP))
+		}
+		scribbleBytes(pb)
+		if pb2 := parent.ToBytes(); !bytes.Equal(pb2[len(pb2)-len(got):], got) {
+			return fmt.Errorf("a list embedding the item encodes differently after the caller overwrote the buffer its first ToBytes() returned")
+		}
 	}
 	// prefix preservation with three capacity situations
 	prefix := []byte{0xDE, 0xAD, 0xBE, 0xEF, 0x00, 0xFF, 0x41}
@@ -231,6 +250,13 @@ func checkItemAgainst(v e5.Value, it secs2.Item) error {
 		return fmt.Errorf("decoded EncodedLen()=%d, want %d", dec.EncodedLen(), len(got))
 	}
 	return nil
+}
+
+// scribbleBytes overwrites a buffer the library handed to the caller.
+func scribbleBytes(b []byte) {
+	for i := range b {
+		b[i] ^= 0x5A
+	}
 }
 
 func recordTree(prefix string, v e5.Value, sh *gen.Shape, extra ...string) {
